@@ -170,7 +170,7 @@ def update_mcm(m, u):
                               bsp_reconciled=u["bsp_rec"], market_type=m.get("type", "WIN"), number_of_winners=m.get("winners", 1),
                               bet_delay=u.get("bet_delay", 0), persistence_enabled=u.get("persistence_enabled", True),
                               each_way_divisor=m.get("ew"), event_id=m.get("event", "100"),
-                              **({"market_time": iso_ms(m["market_time"])} if m.get("market_time") is not None else {}),
+                              **({"market_time": iso_ms(u.get("market_time", m["market_time"]))} if m.get("market_time") is not None else {}),
                               runners=[{"id": r["id"], "status": r.get("status", "ACTIVE"), "af": r.get("af"), "hc": r.get("hc") or None,
                                         "bsp": r.get("sp")} for r in u["runners"]])
     rcs = [bb.rc(r["id"], atb=r.get("atb", []), atl=r.get("atl", []), trd=r.get("trd", []), hc=r.get("hc") or None)
